@@ -10,7 +10,9 @@ Result: `R <fuel> :: <event> ;; <event> … || <answer> ;; … || <ball or -> ||
   answers  = the template under each answer substitution,
   ball     = the uncaught ball (after the answers),
   markers  = s (set-up done) / x f e c (clean-up on exit, failure, exception, cut), in order.
-`oof <fuel>` when the model did not finish within the fuel schedule.
+`oof <fuel>` when the model did not finish within the fuel schedule; `unstable <fuel>` if twice the fuel
+gives a different trace (never observed; run-time guard for the fuel monotonicity that is proved for
+Scryer.Solve only).
 -/
 open Scryer Scryer.Drv Scryer.Solve Scryer.Exc
 
@@ -61,7 +63,12 @@ def runQuery (prog : Prog) (goal tmpl : Term) : IO String := do
     let t1 ← IO.monoMsNow
     last := f + (done - done)
     match out with
-    | some s => return s
+    | some s =>
+        -- fuel monotonicity is proved for Scryer.Solve, not for Scryer.Exc: guard at run time that more
+        -- fuel gives the same trace
+        let r2 := runTop (2 * f) prog goal
+        if !r2.oof && showRes tmpl r2 != showRes tmpl r then return s!"unstable {f}"
+        return s
     | none => if t1 - t0 > 400 then break
   return s!"oof {last}"
 
